@@ -1,6 +1,6 @@
 """What contract files import."""
 import z3
-from z3 import Consts, Ints, Reals, And, Or, Not, Implies, If, ForAll, Exists, Int, Real, Bool, IntVal, RealVal, BoolVal, Select, Store, Function, IntSort, RealSort, BoolSort, ArraySort, Const, Lambda, Distinct, ToReal, ToInt
+from z3 import Consts, Ints, Reals, Xor, And, Or, Not, Implies, If, ForAll, Exists, Int, Real, Bool, IntVal, RealVal, BoolVal, Select, Store, Function, IntSort, RealSort, BoolSort, ArraySort, Const, Lambda, Distinct, ToReal, ToInt
 from .contracts import Property
 from .types import INT, REAL, BOOL, ELEM, VAL, STRING, OBJ, TUP, OPT, SEQ, SET, MAP, CONST
 from .values import Ref, Elem, Val, NULL, ObjV, SeqV, SetV, MapV, Tup, OptV, NONE, fresh_name, arrs_of
